@@ -13,6 +13,13 @@ type HistResult struct {
 // RunHistory executes setup + hist on a fresh world, checking every step,
 // then probes every live session and tears the world down.
 func RunHistory(f *Family, hist []Ev, flags []string, wantTrace bool) (res HistResult) {
+	return RunHistoryOpt(f, hist, flags, wantTrace, wantTrace)
+}
+
+// RunHistoryOpt: with allSteps the violations of every step are returned,
+// otherwise only those of the last event, the probe and the teardown (the
+// earlier ones were reported when the prefix was explored).
+func RunHistoryOpt(f *Family, hist []Ev, flags []string, wantTrace, allSteps bool) (res HistResult) {
 	cfg := f.Cfg
 	cfg.Flags = flags
 	r := NewRunner(cfg, f.NConn)
@@ -44,7 +51,7 @@ func RunHistory(f *Family, hist []Ev, flags []string, wantTrace bool) (res HistR
 	_ = nsetup
 	for _, v := range r.V {
 		// violations of earlier steps were reported when the prefix was explored
-		if len(hist) == 0 || v.Step >= last {
+		if allSteps || len(hist) == 0 || v.Step >= last {
 			res.Viols = append(res.Viols, v)
 		}
 	}
